@@ -12,6 +12,8 @@ BASE = {
     "unit": [(0, 0)],
     "square2": [(0, 0), (1, 0), (0, 1), (1, 1)],
     "bar3": [(0, 0), (1, 0), (2, 0)],
+    "barV": [(0, 0), (0, 1), (0, 2)],
+    "barV4": [(0, 0), (0, 1), (0, 2), (0, 3)],
     "L": [(0, 0), (1, 0), (0, 1)],
     "L4": [(0, 0), (1, 0), (2, 0), (0, 1), (0, 2)],
     "U": [(0, 0), (1, 0), (2, 0), (0, 1), (2, 1)],
@@ -66,6 +68,11 @@ def grid_pairs(tier, seed):
         a, ca = random_region(rnd, 0)
         b, cb = random_region(rnd, 1)
         out.append((f"rand{i}:{sorted(ca)}|{sorted(cb)}", a, b))
+    # one edge crossed twice by the other operand ("plus" configurations) -- exercises the split bookkeeping
+    for na, nb, sh in (("bar3", "barV", (1, -1)), ("big3", "barV4", (1, -1)), ("ring", "barV4", (0, -1)), ("U", "bar3", (0, 1)), ("bar3", "U", (0, -1))):
+        a, b = region(na, 0), region(nb, 1, sh)
+        out.append((f"plus:{na}|{nb}@{sh}", a, b))
+        out.append((f"plus:~{na}|{nb}@{sh}", ~a, b))
     # unbounded operands
     for na, nb, sh in (("square2", "square2", (1, 1)), ("ring", "unit", (1, 1)), ("L", "bar3", (0, 0)), ("big3", "square2", (0, 0)), ("two", "big3", (-1, -1)), ("U", "unit", (1, 1))):
         a, b = region(na, 0), region(nb, 1, sh)
